@@ -15,7 +15,9 @@
 EXTENDS Naturals, Sequences, FiniteSets, TLC, Json
 CONSTANT Fixed
 
-Types == {"authn", "logout_idp", "logout_sp", "attrquery"}
+\* the SOAP queries an IdP / attribute authority / decision point answers besides the attribute query
+Queries == {"attrquery", "authnquery", "authzquery", "assertionid", "nameidmapping", "managenameid"}
+Types == {"authn", "logout_idp", "logout_sp"} \cup Queries
 Bindings == {"redirect", "post", "soap"}
 Sigs == {"none", "valid", "invalid", "wrapped"}
 Muts == {"none", "dest_foreign", "dest_absent", "dest_other_binding", "stale", "future", "wrong_root", "schema",
@@ -25,13 +27,13 @@ Scn == [rtype : Types, binding : Bindings, sig : Sigs, want : BOOLEAN, mut : Mut
         issuerKey : {"known", "nokey"}]
 WellFormed(s) ==
     /\ (s.rtype = "authn" => s.binding \in {"redirect", "post"})
-    /\ (s.rtype = "attrquery" => s.binding = "soap" /\ s.endpoint = "configured")
+    /\ (s.rtype \in Queries => s.binding = "soap" /\ s.endpoint = "configured")
     /\ (s.binding = "redirect" => s.sig = "none")                 \* redirect signatures live in the query (C15)
     /\ (s.rtype = "logout_sp" => ~s.want)                         \* the option is an IdP option
     /\ (s.mut = "garbled_deflate" => s.binding = "redirect")
     /\ (s.mut = "garbled_base64" => s.binding # "soap")
     /\ (s.endpoint = "otherBindingOnly" => s.binding = "post")    \* receiver publishes a redirect endpoint only
-    /\ (s.mut = "dest_other_binding" => s.endpoint = "configured" /\ s.rtype # "attrquery")
+    /\ (s.mut = "dest_other_binding" => s.endpoint = "configured" /\ s.rtype \notin Queries)
     /\ (s.issuerKey = "nokey" => s.sig \in {"valid", "invalid"} /\ s.mut = "none" /\ s.endpoint = "configured")
 
 VARIABLES scn, pc, verdict
@@ -40,7 +42,7 @@ Init == scn \in {s \in Scn : WellFormed(s)} /\ pc = "unravel" /\ verdict = "none
 Refuse == verdict' = "refuse" /\ pc' = "done" /\ UNCHANGED scn
 Goto(p) == pc' = p /\ UNCHANGED <<scn, verdict>>
 
-Unravel == pc = "unravel" /\ IF scn.mut \in {"garbled_base64", "garbled_deflate"} THEN Refuse ELSE Goto("signature")
+Unravel == pc = "unravel" /\ IF scn.mut \in {"garbled_base64", "garbled_deflate"} \/ scn.rtype = "authzquery" THEN Refuse ELSE Goto("signature")
 \* signature_check: parse as the expected type, then _check_signature when a signature is there
 Signature ==
     /\ pc = "signature"
@@ -65,7 +67,10 @@ MustRefuse == \/ scn.mut \in {"dest_foreign", "stale", "future", "wrong_root", "
               \/ scn.sig \in {"invalid", "wrapped"}
               \/ (scn.sig # "none" /\ scn.issuerKey = "nokey")          \* a signature must verify under the issuer's metadata key
               \/ (scn.want /\ scn.sig = "none")
-MustHand == /\ scn.mut \in {"none", "dest_absent"} /\ scn.endpoint = "configured" /\ scn.issuerKey = "known"
+\* (the property is an "only if"; acceptance of valid requests is demanded as a sanity condition, except for the
+\* authorisation-decision query, for which soap.py has no envelope parser: it can never be received over SOAP)
+MustHand == /\ scn.rtype # "authzquery"
+            /\ scn.mut \in {"none", "dest_absent"} /\ scn.endpoint = "configured" /\ scn.issuerKey = "known"
             /\ (scn.sig = "valid" \/ (scn.sig = "none" /\ ~scn.want))
 Emit == /\ pc = "done" /\ pc' = "emitted" /\ UNCHANGED <<scn, verdict>>
         /\ PrintT(<<"CASE", ToJson([scn |-> scn, model |-> verdict, mustRefuse |-> MustRefuse, mustHand |-> MustHand])>>)
